@@ -106,6 +106,19 @@ CHECKS['C02'] = {
     'technique': 'TLA+ layout table enumerated by TLC and replayed on every class; TLC-validated observation events with the tolerance table in TLA+',
 }
 
+CHECKS['C04'] = {
+    'text': 'Periodogram.tla carries, as TLC invariants over every small complex/real x, the lag-domain theorems behind C04: modulation by i^n multiplies lag d by i^d (hence a circular shift by exactly NFFT/4 bins, direction new[k]=old[k-m], checked on the 4-point grid), conjugation mirrors bins, conjugate time reversal leaves the lags unchanged. ObsC04.tla holds which classes must satisfy which clause (one-sided doubling: AR/MA/ARMA, minimum variance, multitaper; time-reversal invariance: periodogram, correlogram, Yule-Walker, Burg, modified covariance, multitaper, minimum variance) and validates, for all twelve classes, shifts m (incl. 1, NFFT/4, NFFT-1, random), mirror, one-sided = 2 x half and reversal on float data at even and odd NFFT, together with the best-aligning shift.',
+    'design_ref': 'DESIGN.md 3/C04',
+    'note': 'Class-level clauses are decided from quantised observation events (1e-7 relative; worst rounding error measured 1e-12). The exact kernel theorem covers the periodogram/correlogram lag domain only.',
+    'technique': 'TLC invariants (modulation/conjugation/reversal theorems) on the exact kernel + TLC-validated observation events with the class table in TLA+',
+}
+CHECKS['C05'] = {
+    'text': 'In every kernel specification the spectrum is a function of NFFT-free lag/coefficient-domain data, evaluated by the replays at several NFFT (even, odd, multiples); Periodogram.tla states grid consistency (NFFT=2 spectrum = NFFT=4 spectrum at even bins) as a TLC invariant. ObsC05.tla holds the admissibility table and the clauses; the driver compares, for all twelve classes and pairs (NFFT, c NFFT), c in {2,3,4,5}, incl. odd NFFT, the PSD at common frequencies, the length of the finer grid and the model parameters (AR, MA, variance, reflection coefficients, singular values, taper eigenvalues).',
+    'design_ref': 'DESIGN.md 3/C05',
+    'note': 'Decided at class level from quantised observation events (1e-7 relative).',
+    'technique': 'TLC invariant (grid consistency) on the exact kernel + TLC-validated observation events with the admissibility table in TLA+',
+}
+
 NOT_APPLICABLE = {
     'C18': 'Slepian tapers: irrational eigenproblem solved in C; no exact finite model exists and quantised re-verification would make Python the oracle (a different technique). DESIGN.md section 4.',
 }
